@@ -12,6 +12,8 @@
 //   npend  : how many requests are pending when the site fires (1, 2, 3, 7, 14: around libstdc++'s rehash thresholds)
 //   (continuations are attached with a context object: QXmppTask::then(nullptr, …) never runs its continuation)
 //
+// The defects this part found (request lost / cancelled with the old session / use of freed map nodes, keys C07:reent:*) were fixed
+// by repo commit c25989b; all scenarios must pass now, and the part stays as the regression net.
 // Oracle (property text, no model): by the time the client has been destroyed every request ever issued — the original ones and
 // the ones issued from inside continuations — has completed exactly once; no sanitizer report.
 // Correspondence: a scenario that passes the oracle is also printed as `seq <op> ;; <op> …` lines for the Lean driver — the
@@ -147,6 +149,9 @@ static int runScenario(const Scenario &sc, int fd)
     // a request started while the requests of the OLD session are being cancelled belongs to the new session, which lives:
     // it must not be completed (cancelled) together with them
     bool spuriousCancel = sc.site == "opened" && (sc.body == "new" || sc.body == "same") && w.bodiesRun > 0 && w.counts.back() != 0;
+    // a packet sent from inside resetCache() is dropped from the unacknowledged cache by resetCache()'s final clear() without a report
+    // (StreamAckManager's business, passed on to property C09): for the request table that is "sent, then no longer in the cache"
+    if (sc.site == "failall" && (sc.body == "new" || sc.body == "same") && !w.bodyOp.empty()) w.bodyOp += " ;; ackall";
     put(siteOp + (w.bodyOp.empty() ? "" : " ;; " + w.bodyOp));
     // the end of every history: the client goes away; whatever is still pending must complete now
     if (w.c) { auto *c = w.c; delete c; w.c = nullptr; }
@@ -225,9 +230,8 @@ int main(int argc, char **argv)
         } else if (WIFEXITED(st) && WEXITSTATUS(st) == 0) {
             vh::oraclePass()++;
             if (body != "none") vh::sample(name + " => " + out);
-            // correspondence (not for resetCache: a packet sent from inside resetCache() is dropped by its final clear(), which is
-            // StreamAckManager's business — property C09 — and changes how the new request ends at destruction)
-            if (site != "failall") {
+            // correspondence with the model: every passing scenario
+            {
                 vh::corr("reset iq me@own.org 0 1", "ok");
                 for (auto &l : lines) vh::corr(l.first, l.second);
                 vh::stat("reent_corr_sequences");
